@@ -110,6 +110,11 @@ func (u *zzC10Univ) init(seed int64) {
 	u.absMAC = map[string]string{}
 	for i, m := range u.Macs {
 		hw := net.HardwareAddr{0x02, byte(seed % 251), 0x5e, 0x10, byte(i / 200), byte(i%200 + 1)}
+		if (int64(i)+seed)%3 == 1 {
+			// "Any set of hardware addresses": every third client has an
+			// EUI-64 address (hlen 8), the others Ethernet ones (hlen 6).
+			hw = net.HardwareAddr{0x02, byte(seed % 251), 0x5e, 0xff, 0xfe, 0x10, byte(i / 200), byte(i%200 + 1)}
+		}
 		u.macOf[m] = hw
 		u.absMAC[hw.String()] = m
 	}
@@ -1218,8 +1223,62 @@ func zzC10RunHistory(u *zzC10Univ, base string, acts []zzC10Act) (src *zzC10Obs,
 	return src, r, y.abs(), nil
 }
 
+// sig is the signature under which disagreements are counted; only the first
+// few of a signature are reproduced and written out in full.  It contains the
+// shape of the change (kinds of the leases that disappeared and appeared:
+// s static, r running, o offered/expired; for Restart relative to the
+// database), so that different failures of one action are not lumped.
 func (wk *zzC10Walk) sig(a zzC10Act, why string, src, post *zzC10Obs) (s string) {
-	return a.Name + "|" + why + "|" + strings.Join(src.Prob, ";") + "|" + strings.Join(post.Prob, ";")
+	from := src.Ls
+	if a.Name == "Restart" {
+		from = src.Disk
+	}
+
+	return a.Name + "|" + why + "|" + strings.Join(src.Prob, ";") + "|" + strings.Join(post.Prob, ";") +
+		"|" + zzC10Shape(from, post.Ls)
+}
+
+func zzC10Shape(from, to []zzC10L) (shape string) {
+	class := func(l zzC10L) string {
+		c := "o"
+		if l.F < 0 {
+			c = "s"
+		} else if l.F > 0 {
+			c = "r"
+		}
+		if strings.HasPrefix(l.Mac, "?") {
+			c += "?"
+		}
+		if l.Host == "" {
+			c += "_"
+		}
+
+		return c
+	}
+	cnt := map[string]int{}
+	for _, l := range from {
+		cnt[l.String()]--
+	}
+	for _, l := range to {
+		cnt[l.String()]++
+	}
+	minus, plus := []string{}, []string{}
+	for _, l := range from {
+		if cnt[l.String()] < 0 {
+			cnt[l.String()]++
+			minus = append(minus, class(l))
+		}
+	}
+	for _, l := range to {
+		if cnt[l.String()] > 0 {
+			cnt[l.String()]--
+			plus = append(plus, class(l))
+		}
+	}
+	sort.Strings(minus)
+	sort.Strings(plus)
+
+	return "-" + strings.Join(minus, ",") + "+" + strings.Join(plus, ",")
 }
 
 // report handles a disagreement: reproduces it in isolation (shortest known
